@@ -36,16 +36,19 @@ var (
 	wValid   = window{-100 * day, 100 * day}
 	wExpired = window{-100 * day, -10 * day}
 	wNotYet  = window{10 * day, 100 * day}
+	wWide    = window{-3000 * day, 3000 * day}
 )
 
 type chainKind struct {
-	name        string
-	leaf, inter window
+	name              string
+	leaf, inter, root window
 }
 
 var chainKinds = []chainKind{
-	{"all-valid-now", wValid, wValid}, {"leaf-expired", wExpired, wValid}, {"issuer-expired", wValid, wExpired},
-	{"leaf-not-yet-valid", wNotYet, wValid}, {"issuer-not-yet-valid", wValid, wNotYet}, {"all-expired", wExpired, wExpired},
+	{"all-valid-now", wValid, wValid, wWide}, {"leaf-expired", wExpired, wValid, wWide}, {"issuer-expired", wValid, wExpired, wWide},
+	{"leaf-not-yet-valid", wNotYet, wValid, wWide}, {"issuer-not-yet-valid", wValid, wNotYet, wWide}, {"all-expired", wExpired, wExpired, wWide},
+	// only the trust anchor's own window is off (a re-issued or retired root): "every certificate of the chain" includes it
+	{"root-expired", wValid, wValid, wExpired}, {"root-not-yet-valid", wValid, wValid, wNotYet},
 }
 
 type tsRev struct {
@@ -87,7 +90,7 @@ type caseT struct {
 
 func main() {
 	r := lib.Start("C06", "exploration")
-	r.Rule = "product of scheme {notary.x509, signingAuthority} x format x 6 chain window placements (leaf / issuer each valid around now, expired, not yet valid) x signing time (inside / before all windows; signing authority also after) x expiry {none, past, future} x tsa store listed x verifyTimestamp {unset, always, afterCertExpiry} x countersignature {absent, good, wrong message, untrusted TSA, TSA root only in a ca store, EKU missing / extra / non-critical, TSA revoked / unknown / validator error, gen-time before / inside / after the windows, accuracy straddling the lower / upper window edge, accuracy just inside}; quick = x509/JWS full + the other three combinations on a covering subset, thorough = full; distinct by the tuple; non-trivial = anything but (valid chain, no expiry, no tsa store)"
+	r.Rule = "product of scheme {notary.x509, signingAuthority} x format x 8 chain window placements (leaf / issuer / trust anchor each valid around now, expired, not yet valid) x signing time (inside / before all windows; signing authority also after) x expiry {none, past, future} x tsa store listed x verifyTimestamp {unset, always, afterCertExpiry} x countersignature {absent, good, wrong message, untrusted TSA, TSA root only in a ca store, EKU missing / extra / non-critical, TSA revoked / unknown / validator error, gen-time before / inside / after the windows, accuracy straddling the lower / upper window edge, accuracy just inside}; quick = x509/JWS full + the other three combinations on a covering subset, thorough = full; distinct by the tuple; non-trivial = anything but (valid chain, no expiry, no tsa store)"
 	r.Assumptions = []string{"all generated instants are >= 5 days away from now; the boundary 'expiry == now' is unreachable without a clock hook",
 		"window edges relative to a countersignature are exercised with second resolution at instants far from now",
 		"one-directional clauses ('passes only if') are judged in that direction; expiry is judged in both directions as stated"}
@@ -105,12 +108,17 @@ func main() {
 	type chainT struct {
 		leaf  *lib.Ent
 		certs []*x509.Certificate
+		root  *lib.Ent
 	}
 	chains := make([]chainT, len(chainKinds))
 	for i, ck := range chainKinds {
-		iss := lib.Mint(root, lib.CertSpec{CN: "c06-issuer-" + ck.name, Kind: "ca", KeyIdx: 4, PathLen: 1, NotBefore: now.Add(ck.inter.nb), NotAfter: now.Add(ck.inter.na)})
+		rt := root
+		if ck.root != wWide {
+			rt = lib.Mint(nil, lib.CertSpec{CN: "c06-root-" + ck.name, Kind: "ca", KeyIdx: 7, NotBefore: now.Add(ck.root.nb), NotAfter: now.Add(ck.root.na)})
+		}
+		iss := lib.Mint(rt, lib.CertSpec{CN: "c06-issuer-" + ck.name, Kind: "ca", KeyIdx: 4, PathLen: 1, NotBefore: now.Add(ck.inter.nb), NotAfter: now.Add(ck.inter.na)})
 		lf := lib.Mint(iss, lib.CertSpec{CN: "c06-leaf-" + ck.name, Kind: "codesign", KeyIdx: 0, NotBefore: now.Add(ck.leaf.nb), NotAfter: now.Add(ck.leaf.na)})
-		chains[i] = chainT{lf, lf.Chain()}
+		chains[i] = chainT{lf, lf.Chain(), rt}
 	}
 	desc := lib.Desc(ocispec.MediaTypeImageManifest, []byte("c06"))
 	payload := lib.Payload(desc)
@@ -204,13 +212,15 @@ func main() {
 			return
 		}
 		ck := chainKinds[c.Chain]
-		// intersection of the windows of the chain (root is valid throughout)
+		// intersection of the windows of the chain
 		lo, hi := ck.leaf.nb, ck.leaf.na
-		if ck.inter.nb > lo {
-			lo = ck.inter.nb
-		}
-		if ck.inter.na < hi {
-			hi = ck.inter.na
+		for _, w := range []window{ck.inter, ck.root} {
+			if w.nb > lo {
+				lo = w.nb
+			}
+			if w.na < hi {
+				hi = w.na
+			}
 		}
 		// ---- countersignature
 		sigVal, alg := lib.SigValue(c.Format, raw)
@@ -275,7 +285,7 @@ func main() {
 			storeType = "signingAuthority"
 		}
 		stores := []string{storeType + ":x"}
-		ts := lib.NewMemTS().Put(storeType+":x", root.Cert, tsaRoot.Cert)
+		ts := lib.NewMemTS().Put(storeType+":x", chains[c.Chain].root.Cert, tsaRoot.Cert)
 		if c.TSAListed {
 			stores = append(stores, "tsa:t")
 			ts.Put("tsa:t", tsaInTSAStore)
@@ -313,7 +323,7 @@ func main() {
 		for _, x := range out.VerificationResults {
 			res[x.Type] = x
 		}
-		wit := map[string]any{"case": id, "verify_error": fmt.Sprint(verr), "chain_windows_days": map[string][2]float64{"leaf": {ck.leaf.nb.Hours() / 24, ck.leaf.na.Hours() / 24}, "issuer": {ck.inter.nb.Hours() / 24, ck.inter.na.Hours() / 24}}}
+		wit := map[string]any{"case": id, "verify_error": fmt.Sprint(verr), "chain_windows_days": map[string][2]float64{"leaf": {ck.leaf.nb.Hours() / 24, ck.leaf.na.Hours() / 24}, "issuer": {ck.inter.nb.Hours() / 24, ck.inter.na.Hours() / 24}, "root": {ck.root.nb.Hours() / 24, ck.root.na.Hours() / 24}}}
 		sigm := func(kind string) map[string]string {
 			return map[string]string{"kind": kind, "scheme": c.Scheme, "token": c.Token, "vt": c.VT, "chain": ck.name, "tsa_store": fmt.Sprint(c.TSAListed)}
 		}
@@ -343,13 +353,13 @@ func main() {
 		switch {
 		case c.Scheme != "notary.x509":
 			branch = "signing-authority: authentic signing time inside every window"
-			mayPass = inWin(c.SignOff, ck.leaf) && inWin(c.SignOff, ck.inter)
+			mayPass = inWin(c.SignOff, ck.leaf) && inWin(c.SignOff, ck.inter) && inWin(c.SignOff, ck.root)
 		default:
-			chainExpiredNow := ck.leaf.na < 0 || ck.inter.na < 0
+			chainExpiredNow := ck.leaf.na < 0 || ck.inter.na < 0 || ck.root.na < 0
 			applies := c.TSAListed && (c.VT != "afterCertExpiry" || chainExpiredNow)
 			if !applies {
 				branch = "no timestamping: every certificate valid now"
-				mayPass = inWin(0, ck.leaf) && inWin(0, ck.inter)
+				mayPass = inWin(0, ck.leaf) && inWin(0, ck.inter) && inWin(0, ck.root)
 			} else {
 				branch = "timestamping applies: acceptable token whose range lies inside every window"
 				mayPass = tokenOK && rangeInside
